@@ -80,6 +80,21 @@ def _directed(wb):
     return ins
 
 
+def reachable(e):
+    """parameters for which the exported API can confirm or refute a white-box deviation in a test (searches of at most 3^11 hashes)"""
+    from fractions import Fraction
+    i = e["in"]
+    if e["op"] == "pow.required":
+        t = i["target"]
+        tv = Fraction(sum(v << (12 * k) for k, v in enumerate(t["m"]))) * (Fraction(2) ** t["e"])
+        return bool(t.get("neg")) or tv * i["len"] <= 3 ** 11
+    if e["op"] == "pow.check":
+        return i["n"] <= 11
+    if e["op"] in ("pow2.params", "pow2.check"):
+        return sum(v << (12 * k) for k, v in enumerate(i["lx"])) <= 3 ** 11
+    return True
+
+
 def judge(ctx, bins, events, what):
     bad = vlib.validate_trace(ctx, "PowTrace", events, chunk=max(4, len(events) // (2 * vlib.NCPU)))
     for pk, binp in bins.items():
@@ -101,7 +116,8 @@ def judge(ctx, bins, events, what):
             rej = vlib.validate_trace(ctx, "PowTrace", ev, chunk=max(4, len(ev) // (2 * vlib.NCPU)), label="T_escalate")
             ctx.events, ctx.traces = n0, t0
             return vlib.reproduce_revalidate(ctx, binp, rej, "PowTrace")
-        for e in vlib.settle_whitebox(ctx, conf, WB_OPS, escalate, label=pk):
+        wb_all = [x for x in events if x["op"] in WB_OPS and x["op"].startswith(pk + ".")]
+        for e in vlib.settle_whitebox(ctx, conf, WB_OPS, escalate, label=pk, wb_all=wb_all, reachable=reachable):
             ctx.bad.append(dict(event=slim(e), reason=what))
 
 
